@@ -45,6 +45,29 @@ CHECKS = {
         design_ref="DESIGN.md section 5, C03",
         note=NOTE_COMMON + "Engine primitives (Polars floor division and modulo, SQLite scalar MAX/MIN/COALESCE/IN) are modelled definitions validated by the grid only.",
     ),
+    "C17": dict(
+        technique="Lean 4 proof: kernel-decided equality of the type checker's cast acceptance (relation regenerated from the source) with the "
+                  "documented conversion table over the whole type universe, plus value lemmas; model tied by exhaustive acceptance correspondence",
+        text="Pdt/Props/C17.lean: cast_acceptance (accepted = documented table + implicit conversions for every source/target pair, column and "
+             "constant sources), cast_rejected_at_construction (DataTypeError from Cast.dtype, never later), cast_to_const_rejected, null_stays_null, "
+             "bool_to_int, int_to_string, parse_int_roundtrip (for every integer). Tie: Gen/Casts is Cast.is_valid_cast evaluated on the universe by "
+             "the translator; the real Cast constructor is run on all 1682 pairs and compared with the model; because the model's acceptance is proved "
+             "equal to the documented table, a differing pair is reported as a concrete violation. Values: boundary grid on Polars, SQLite and the "
+             "model, for column and constant operands, incl. date/datetime. Partial: float<->string text and float truncation are compared, not proved.",
+        design_ref="DESIGN.md section 5, C17",
+        note=NOTE_COMMON + "Polars / SQLite cast primitives are modelled (Ops.castVal) and validated only by the value grid.",
+    ),
+    "C19": dict(
+        technique="Lean 4 proof: kernel-decided totality of the model of get_impl over the implementation stores regenerated from the source; "
+                  "correspondence with the real class methods; renderer determinism observed on three dialects",
+        text="Pdt/Props/C19.lean: impl_total (for every backend class chain, operator and argument tuple the lookup typed-trie -> default -> parent "
+             "ends in an implementation or NotSupportedError, never in an internal error) and core_ops_supported, over Gen/ImplCoverage dumped from "
+             "the live ImplStore objects. The model is run against TableImpl.get_impl for every backend x operator (x argument tuples where typed "
+             "implementations exist). Clause (a) is partial: build_query is executed twice per generated program on SQLite, PostgreSQL and SQL Server "
+             "dialect objects (stub DBAPI modules) and checked for equal text, a single SELECT and allowed exceptions; SQLAlchemy's renderer is not modelled.",
+        design_ref="DESIGN.md section 5, C19",
+        note=NOTE_COMMON + "DuckDB / DB2 classes only when importable. Known findings D44, D49, D53 are matched by trigger predicates.",
+    ),
 }
 
 NOT_YET = "check not built yet in this revision of /verif (model and theorems planned in DESIGN.md section 5)"
